@@ -14,11 +14,14 @@ OUT=seeded/RESULTS.md
 rc=0
 for id in $IDS; do
   p=${id%%-*}
+  # a few changes are, by their nature, decided by a neighbouring property's check (meta.json: detected_by)
+  alt=$(/venv/bin/python -c "import json;print(json.load(open('/verif/seeded/$id/meta.json')).get('detected_by',''))" 2>/dev/null)
+  [ -n "$alt" ] && p=$alt
   line=$(tools/seedrun.py /verif/seeded/$id/patch.diff $p --tier $TIER | tail -1)
   res=$(echo "$line" | awk '{print $1}')
   sig=$(echo "$line" | sed -n 's/.*first: sig=//p' | cut -c1-160)
   [ "$res" != "DETECTED" ] && rc=1
-  echo "| $id | $res | \`$sig\` |" >> $OUT.tmp
+  echo "| $id | $res (by $p) | \`$sig\` |" >> $OUT.tmp
   echo "$id $res"
 done
 mv $OUT.tmp $OUT
